@@ -27,7 +27,16 @@
       ([node_eqb]);
     - [node.out] is the list of the graph's edges whose parent is the node, in creation order ([py_out]): the [parent]
       setter appends every constructed edge to it, and no constructed edge is dropped from [graph.edges] when the arc
-      names are pairwise distinct. *)
+      names are pairwise distinct;
+    - a constructed Representation is the model record [graph]: [self.nodes] is [nodes_dict], [self.edges] is [edges_dict]
+      (for the graphs [build_graph] returns these are the dicts the constructor built: [edges_dict_built]);
+    - the mutable [_state] attributes of the nodes are a heap [node_states] keyed by node name (last section).
+
+    Contents: [np_check_unique_names_eq], [np_init_nodes_eq], [np_init_edges_eq], [np_Representation_eq] (= [build_graph],
+    no hypothesis), [np_to_dict_eq] / [np_to_dict_built], [np_gen_state_list_eq], [np_state_list_eq],
+    [np_tumor_edges_eq] / [np_lnl_edges_eq] / [np_growth_edges_eq], [py_Edge_get_name] / [np_get_name_built],
+    [np_get_state_eq], [np_set_state_positional] / [np_set_state_rejects] / [np_set_state_keyword] /
+    [np_set_state_unknown]. *)
 From LymphModel Require Import Base States Graph Transition GraphStatements GraphProofs.
 Local Open Scope nat_scope.
 Local Open Scope string_scope.
@@ -502,3 +511,350 @@ Proof.
 Qed.
 Lemma np_to_dict_built base d g : build_graph base d = inr g -> np_to_dict g = to_dict g.
 Proof. intros H. apply np_to_dict_eq, NoDup_names_keys, (build_graph_nodes base d), H. Qed.
+
+(** * The Representation object of a model graph: [self.nodes], [self.edges] *)
+Definition nodes_dict (g : graph) : list (string * node) := map (fun n => (n_name n, n)) (g_nodes g).
+Definition edges_dict (g : graph) : list (string * edge) := map (fun e => (e_name e, e)) (g_edges g).
+
+Lemma filter_map_pairs {A} (key : A -> string) (p : A -> bool) (q : string * A -> bool) l :
+  (forall a, q (key a, a) = p a) ->
+  filter q (map (fun a => (key a, a)) l) = map (fun a => (key a, a)) (filter p l).
+Proof.
+  intros H. induction l as [|a l IH]; cbn [map filter]; [reflexivity|].
+  rewrite H. destruct (p a); cbn [map]; rewrite IH; reflexivity.
+Qed.
+
+(** * Representation._gen_state_list / state_list *)
+(** itertools.product( *lists): the last position varies fastest *)
+Fixpoint py_product {A} (ls : list (list A)) : list (list A) :=
+  match ls with
+  | [] => [[]]
+  | l :: r => flat_map (fun d => map (cons d) (py_product r)) l
+  end.
+
+(** the new value of [self._state_list]; [lnl.allowed_states] is [seq 0 base] for every LNL *)
+Definition np_gen_state_list (self : graph) : list state :=
+  let allowed_states_list := ([] : list (list nat)) in
+  let allowed_states_list :=
+    fold_left (fun (allowed_states_list : list (list nat)) (lnl : node) =>
+        let allowed_states_list := allowed_states_list ++ [seq 0 (g_base self)] in
+        allowed_states_list) (map snd (np_lnls (nodes_dict self))) allowed_states_list in
+  py_product allowed_states_list.
+
+Lemma fold_append_const {A B} (c : B) (l : list A) : forall acc,
+  fold_left (fun (acc : list B) (_ : A) => acc ++ [c]) l acc = acc ++ repeat c (length l).
+Proof.
+  induction l as [|a l IH]; intros acc; cbn [fold_left length repeat]; [rewrite app_nil_r; reflexivity|].
+  rewrite IH, <- app_assoc. reflexivity.
+Qed.
+Lemma py_product_repeat b n : py_product (repeat (seq 0 b) n) = all_states b n.
+Proof. induction n as [|n IH]; cbn [repeat py_product all_states]; [reflexivity|]. rewrite IH. reflexivity. Qed.
+
+Lemma np_gen_state_list_eq g : np_gen_state_list g = state_list g.
+Proof.
+  unfold np_gen_state_list, state_list, nlnls, lnls. cbv zeta.
+  rewrite fold_append_const. cbn [app]. rewrite py_product_repeat. f_equal.
+  rewrite !map_length. unfold np_lnls, nodes_dict.
+  rewrite (filter_map_pairs n_name (fun n => negb (n_tumor n))) by reflexivity. rewrite map_length. reflexivity.
+Qed.
+
+(** the property state_list: [self._state_list] is an attribute that may be unset (AttributeError): an [option];
+    the result is the new value of the attribute and the returned value *)
+Definition np_state_list (self : graph) (cache : option (list state)) : option (list state) * list state :=
+  match cache with
+  | Some state_list => (Some state_list, state_list)
+  | None =>
+      let state_list := np_gen_state_list self in
+      (Some state_list, state_list)
+  end.
+Lemma np_state_list_eq g cache : cache = None \/ cache = Some (state_list g) ->
+  np_state_list g cache = (Some (state_list g), state_list g).
+Proof. intros [->| ->]; cbn [np_state_list]; [rewrite np_gen_state_list_eq|]; reflexivity. Qed.
+
+(** * Representation.tumor_edges / lnl_edges / growth_edges (dict comprehensions over [self.edges.items()]) *)
+Definition np_tumor_edges (edges : list (string * edge)) : list (string * edge) :=
+  filter (fun '((n, e) : string * edge) => is_tumor_spread e) edges.
+Definition np_lnl_edges (edges : list (string * edge)) : list (string * edge) :=
+  filter (fun '((n, e) : string * edge) => negb (is_tumor_spread e)) edges.
+Definition np_growth_edges (edges : list (string * edge)) : list (string * edge) :=
+  filter (fun '((n, e) : string * edge) => is_growth e) edges.
+
+Lemma np_tumor_edges_eq g : np_tumor_edges (edges_dict g) = map (fun e => (e_name e, e)) (tumor_edges g).
+Proof. apply filter_map_pairs. reflexivity. Qed.
+Lemma np_lnl_edges_eq g : np_lnl_edges (edges_dict g) = map (fun e => (e_name e, e)) (lnl_edges g).
+Proof. apply (filter_map_pairs e_name (fun e => negb (is_tumor_spread e))). reflexivity. Qed.
+Lemma np_growth_edges_eq g : np_growth_edges (edges_dict g) = map (fun e => (e_name e, e)) (growth_edges g).
+Proof. apply filter_map_pairs. reflexivity. Qed.
+Lemma np_tumors_graph g : map snd (np_tumors (nodes_dict g)) = filter n_tumor (g_nodes g).
+Proof. unfold np_tumors, nodes_dict. rewrite (filter_map_pairs n_name n_tumor) by reflexivity. rewrite map_map. apply map_id. Qed.
+Lemma np_lnls_graph g : map snd (np_lnls (nodes_dict g)) = filter (fun n => negb (n_tumor n)) (g_nodes g).
+Proof.
+  unfold np_lnls, nodes_dict. rewrite (filter_map_pairs n_name (fun n => negb (n_tumor n))) by reflexivity.
+  rewrite map_map. apply map_id.
+Qed.
+
+(** * Edge.get_name on the edges of a built graph: the key under which the edge is stored *)
+Definition edge_named (e : edge) : Prop := np_get_name e "to" = e_name e.
+
+Lemma dict_set_In {V} k (v : V) d kv : In kv (dict_set k v d) -> kv = (k, v) \/ In kv d.
+Proof.
+  induction d as [|[k0 v0] d IH]; cbn [dict_set In]; [intros [H|[]]; left; symmetry; exact H|].
+  destruct (str_eqb k k0); cbn [In].
+  - intros [H|H]; [left; symmetry; exact H|right; right; exact H].
+  - intros [H|H]; [right; left; exact H|]. destruct (IH H) as [H'|H']; [left; exact H'|right; right; exact H'].
+Qed.
+Definition dict_named (es : list (string * edge)) : Prop :=
+  forall kv, In kv es -> fst kv = e_name (snd kv) /\ edge_named (snd kv).
+Lemma dict_named_set e es : edge_named e -> dict_named es -> dict_named (dict_set (e_name e) e es).
+Proof. intros He H kv Hin. apply dict_set_In in Hin. destruct Hin as [->|Hin]; [split; [reflexivity|exact He]|apply H, Hin]. Qed.
+Lemma init_conn_edges_named tri nodes start ends : forall acc es,
+  init_conn_edges tri nodes start ends acc = inr es -> dict_named acc -> dict_named es.
+Proof.
+  induction ends as [|en ends IH]; intros acc es H Ha; cbn [init_conn_edges] in H; [inversion H; subst; exact Ha|].
+  destruct (dict_get en nodes) as [c|]; [|discriminate]. destruct (n_tumor c); [discriminate|].
+  apply (IH _ _ H). apply dict_named_set; [apply mk_edge_name|exact Ha].
+Qed.
+Lemma init_edges_named tri nodes d : forall acc es,
+  init_edges tri nodes d acc = inr es -> dict_named acc -> dict_named es.
+Proof.
+  induction d as [|[[ty nm] c] d IH]; intros acc es H Ha; cbn [init_edges] in H; [inversion H; subst; exact Ha|].
+  destruct (dict_get nm nodes) as [s|]; [|discriminate].
+  match type of H with match ?X with _ => _ end = _ => destruct X as [err|acc2] eqn:Ec; [discriminate|] end.
+  apply (IH _ _ H). apply (init_conn_edges_named _ _ _ _ _ _ Ec).
+  destruct (negb (n_tumor s) && tri); [|exact Ha]. apply dict_named_set; [apply mk_growth_name|exact Ha].
+Qed.
+
+Lemma np_get_name_built base d g : build_graph base d = inr g ->
+  forall e, In e (g_edges g) -> np_get_name e "to" = e_name e.
+Proof.
+  unfold build_graph. destruct (check_unique_names d); [discriminate|]. cbv zeta.
+  destruct (Nat.eqb _ 0); [discriminate|]. destruct (Nat.eqb _ 0); [discriminate|].
+  destruct (init_edges _ _ _ _) as [err|es] eqn:Ee; [discriminate|]. intros H. inversion H; subst g. clear H. cbn [g_edges].
+  intros e Hin. apply in_map_iff in Hin. destruct Hin as [kv [<- Hin]].
+  apply (init_edges_named _ _ _ _ _ Ee); [intros x []|exact Hin].
+Qed.
+(** ... and [graph.edges] is the dict [edges_dict g] (every edge is stored under its name) *)
+Lemma edges_dict_built base d g : build_graph base d = inr g ->
+  exists es, init_edges (Nat.eqb base 3) (init_nodes d []) d [] = inr es /\ g_edges g = map snd es /\ edges_dict g = es.
+Proof.
+  unfold build_graph. destruct (check_unique_names d); [discriminate|]. cbv zeta.
+  destruct (Nat.eqb _ 0); [discriminate|]. destruct (Nat.eqb _ 0); [discriminate|].
+  destruct (init_edges _ _ _ _) as [err|es] eqn:Ee; [discriminate|]. intros H. inversion H; subst g. clear H.
+  exists es. split; [reflexivity|]. split; [reflexivity|]. unfold edges_dict. cbn [g_edges].
+  rewrite map_map. rewrite <- (map_id es) at 2. apply map_ext_in. intros [k e] Hin.
+  destruct (init_edges_named _ _ _ _ _ Ee (fun x (F : In x []) => match F with end) _ Hin) as [Hk _].
+  cbn [fst snd] in *. rewrite <- Hk. reflexivity.
+Qed.
+
+(** * Node states: AbstractNode.state, Representation.get_state / set_state *)
+(** Graph.v keeps no node states (a hidden state is a digit list aligned with [lnls g]); here the mutable [_state]
+    attributes of the node objects of one graph are a heap keyed by node name (an LNL is created in state 0), a
+    function that assigns states returns [state_err + node_states], and the theorems below say what the assumption
+    "after [set_state( *x)] the state of the i-th LNL is [digit i x]" of the other translator parts relies on. *)
+Definition node_states := list (string * nat).
+Inductive state_err := SEValue (* ValueError: not one of the allowed states *) | SEKey (* KeyError: no such node *).
+(** node.state (the getter returns [self._state]) *)
+Definition py_state (states : node_states) (node : node) : nat :=
+  match dict_get (n_name node) states with Some s => s | None => 0 end.
+(** x in l on ints *)
+Definition nat_mem (x : nat) (l : list nat) : bool := existsb (Nat.eqb x) l.
+
+(** the setter of AbstractNode.state on an LNL ([self.allowed_states] = [seq 0 base]; [int(new_state)] is the identity on
+    an int):  new_state = int(new_state); if new_state not in self.allowed_states: raise ValueError; self._state = new_state *)
+Definition np_node_set_state (base : nat) (states : node_states) (self : node) (new_state : nat) : state_err + node_states :=
+  let new_state := new_state in
+  if negb (nat_mem new_state (seq 0 base)) then inl SEValue
+  else
+    let states := dict_set (n_name self) new_state states in
+    inr states.
+
+Definition np_get_state (self : graph) (states : node_states) (as_dict : bool) : list (string * nat) + list nat :=
+  let result := ([] : list (string * nat)) in
+  let result :=
+    fold_left (fun (result : list (string * nat)) (lnl : node) =>
+        let result := dict_set (n_name lnl) (py_state states lnl) result in
+        result) (map snd (np_lnls (nodes_dict self))) result in
+  if as_dict then inl result else inr (map snd result).
+
+Definition np_set_state (self : graph) (states : node_states) (new_states_args : list nat)
+    (new_states_kwargs : list (string * nat)) : state_err + node_states :=
+  match py_for (fun '((new_lnl_state, lnl) : nat * node) (states : node_states) =>
+          match np_node_set_state (g_base self) states lnl new_lnl_state with
+          | inl e => inl e
+          | inr states => inr states
+          end) (combine new_states_args (map snd (np_lnls (nodes_dict self)))) states with
+  | inl e => inl e
+  | inr states =>
+      match py_for (fun '((key, value) : string * nat) (states : node_states) =>
+              match dict_get key (nodes_dict self) with
+              | None => inl SEKey
+              | Some lnl =>
+                  if true && negb (n_tumor lnl) then
+                    match np_node_set_state (g_base self) states lnl value with
+                    | inl e => inl e
+                    | inr states => inr states
+                    end
+                  else inr states
+              end) new_states_kwargs states with
+      | inl e => inl e
+      | inr states => inr states
+      end
+  end.
+
+Lemma nat_mem_seq v b : nat_mem v (seq 0 b) = Nat.ltb v b.
+Proof.
+  unfold nat_mem. destruct (Nat.ltb v b) eqn:E.
+  - apply Nat.ltb_lt in E. apply existsb_exists. exists v. split; [apply in_seq; lia|apply Nat.eqb_refl].
+  - apply Nat.ltb_ge in E. destruct (existsb (Nat.eqb v) (seq 0 b)) eqn:Ex; [|reflexivity].
+    apply existsb_exists in Ex. destruct Ex as [y [Hy Hv]]. apply Nat.eqb_eq in Hv. subst y. apply in_seq in Hy. lia.
+Qed.
+Lemma np_node_set_state_ok base st n v : v < base -> np_node_set_state base st n v = inr (dict_set (n_name n) v st).
+Proof. intros H. unfold np_node_set_state. cbv zeta. rewrite nat_mem_seq. apply Nat.ltb_lt in H. rewrite H. reflexivity. Qed.
+Lemma np_node_set_state_bad base st n v : base <= v -> np_node_set_state base st n v = inl SEValue.
+Proof. intros H. unfold np_node_set_state. cbv zeta. rewrite nat_mem_seq. apply Nat.ltb_ge in H. rewrite H. reflexivity. Qed.
+
+(** the LNL objects of a graph, in order *)
+Definition lnl_nodes (g : graph) : list node := filter (fun n => negb (n_tumor n)) (g_nodes g).
+Lemma lnl_nodes_names g : map n_name (lnl_nodes g) = lnls g.
+Proof. reflexivity. Qed.
+
+(** assigning [vs] to the nodes [ns] one after the other *)
+Definition assign_all (st : node_states) (vns : list (nat * node)) : node_states :=
+  fold_left (fun st '((v, n) : nat * node) => dict_set (n_name n) v st) vns st.
+
+Lemma set_positional_loop base vns : Forall (fun vn => fst vn < base) vns -> forall st,
+  py_for (fun '((new_lnl_state, lnl) : nat * node) (states : node_states) =>
+          match np_node_set_state base states lnl new_lnl_state with
+          | inl e => inl e
+          | inr states => inr states
+          end) vns st = inr (assign_all st vns).
+Proof.
+  induction 1 as [|[v n] vns Hv _ IH]; intros st; [reflexivity|]. cbn [py_for assign_all fold_left fst] in *.
+  rewrite np_node_set_state_ok by exact Hv. apply IH.
+Qed.
+
+Lemma assign_all_other k vns : ~ In k (map (fun vn => n_name (snd vn)) vns) -> forall st,
+  dict_get k (assign_all st vns) = dict_get k st.
+Proof.
+  induction vns as [|[v n] vns IH]; intros Hk st; [reflexivity|]. cbn [assign_all fold_left map snd In] in *.
+  fold (assign_all (dict_set (n_name n) v st) vns). rewrite IH by tauto. rewrite dict_get_set.
+  destruct (str_eqb k (n_name n)) eqn:E; [|reflexivity]. apply seqb_eq in E. exfalso. apply Hk. left. symmetry. exact E.
+Qed.
+Lemma assign_all_nth vns : NoDup (map (fun vn => n_name (snd vn)) vns) -> forall st i d, i < length vns ->
+  dict_get (n_name (snd (nth i vns d))) (assign_all st vns) = Some (fst (nth i vns d)).
+Proof.
+  induction vns as [|[v n] vns IH]; intros Hnd st i d Hi; [cbn [length] in Hi; lia|].
+  cbn [map snd] in Hnd. apply NoDup_cons_iff in Hnd. destruct Hnd as [Hn Hnd].
+  cbn [assign_all fold_left]. fold (assign_all (dict_set (n_name n) v st) vns). destruct i as [|i]; cbn [nth fst snd].
+  - rewrite assign_all_other by exact Hn. rewrite dict_get_set, seqb_refl. reflexivity.
+  - apply IH; [exact Hnd|cbn [length] in Hi; lia].
+Qed.
+
+Lemma combine_names {A} (vs : list A) (ns : list node) : length vs = length ns ->
+  map (fun vn => n_name (snd vn)) (combine vs ns) = map n_name ns.
+Proof.
+  revert ns. induction vs as [|v vs IH]; intros [|n ns] H; try discriminate H; [reflexivity|].
+  cbn [combine map snd]. rewrite IH by (cbn [length] in H; lia). reflexivity.
+Qed.
+
+Lemma get_state_loop st ns : forall acc, NoDup (map fst acc ++ map n_name ns) ->
+  fold_left (fun (result : list (string * nat)) (lnl : node) => dict_set (n_name lnl) (py_state st lnl) result) ns acc
+  = acc ++ map (fun n => (n_name n, py_state st n)) ns.
+Proof.
+  induction ns as [|n ns IH]; intros acc H; cbn [fold_left map]; [rewrite app_nil_r; reflexivity|].
+  cbn [map] in H. rewrite dict_set_fresh.
+  - rewrite IH; [rewrite <- app_assoc; reflexivity|]. rewrite map_app. cbn [map fst]. rewrite <- app_assoc. exact H.
+  - intros Hin. apply (NoDup_app_disj _ _ _ H Hin). left. reflexivity.
+Qed.
+
+(** get_state: the states of the LNLs in the order of [lnls g] (as a list, or as a dict name -> state) *)
+Lemma np_get_state_eq g st as_dict : NoDup (lnls g) ->
+  np_get_state g st as_dict
+  = if as_dict then inl (map (fun n => (n_name n, py_state st n)) (lnl_nodes g)) else inr (map (py_state st) (lnl_nodes g)).
+Proof.
+  intros Hnd. unfold np_get_state. cbv zeta. rewrite np_lnls_graph. fold (lnl_nodes g).
+  rewrite get_state_loop by (cbn [map app]; rewrite lnl_nodes_names; exact Hnd). cbn [app].
+  destruct as_dict; [reflexivity|]. rewrite map_map. reflexivity.
+Qed.
+
+Lemma nth_combine {A B} (l1 : list A) (l2 : list B) i d1 d2 : length l1 = length l2 ->
+  nth i (combine l1 l2) (d1, d2) = (nth i l1 d1, nth i l2 d2).
+Proof.
+  revert l2 i. induction l1 as [|a l1 IH]; intros [|b l2] [|i] H; try discriminate H; try reflexivity.
+  cbn [combine nth]. apply IH. cbn [length] in H. lia.
+Qed.
+
+(** set_state( *x) with one allowed state per LNL: afterwards the i-th LNL is in state [digit i x], get_state() gives [x]
+    back, and no other node state changed *)
+Lemma np_set_state_positional g st x : NoDup (lnls g) -> length x = nlnls g -> Forall (fun v => v < g_base g) x ->
+  exists st', np_set_state g st x [] = inr st' /\
+    (forall i, i < nlnls g -> py_state st' (nth i (lnl_nodes g) {| n_tumor := false; n_name := "" |}) = digit i x) /\
+    np_get_state g st' false = inr x /\
+    (forall k, ~ In k (lnls g) -> dict_get k st' = dict_get k st).
+Proof.
+  intros Hnd Hl Hx. unfold nlnls in Hl. rewrite <- lnl_nodes_names, map_length in Hl.
+  set (vns := combine x (lnl_nodes g)).
+  assert (Hv : Forall (fun vn : nat * node => fst vn < g_base g) vns).
+  { apply Forall_forall. intros [v n] Hin. apply in_combine_l in Hin. cbn [fst]. rewrite Forall_forall in Hx. apply Hx, Hin. }
+  assert (Hnames : map (fun vn : nat * node => n_name (snd vn)) vns = lnls g).
+  { unfold vns. rewrite combine_names by exact Hl. apply lnl_nodes_names. }
+  exists (assign_all st vns).
+  assert (Hdig : forall i, i < nlnls g ->
+            py_state (assign_all st vns) (nth i (lnl_nodes g) {| n_tumor := false; n_name := "" |}) = digit i x).
+  { intros i Hi. unfold nlnls in Hi. rewrite <- lnl_nodes_names, map_length in Hi. unfold py_state.
+    pose proof (assign_all_nth vns) as H. rewrite Hnames in H.
+    assert (Hlen : i < length vns) by (unfold vns; rewrite combine_length, Hl; lia).
+    specialize (H Hnd st i (0, {| n_tumor := false; n_name := "" |}) Hlen).
+    replace (nth i vns (0, {| n_tumor := false; n_name := "" |}))
+      with (nth i x 0, nth i (lnl_nodes g) {| n_tumor := false; n_name := "" |}) in H
+      by (symmetry; apply nth_combine; exact Hl).
+    cbn [fst snd] in H. rewrite H. reflexivity. }
+  split; [|split; [exact Hdig|split]].
+  - unfold np_set_state. rewrite np_lnls_graph. fold (lnl_nodes g). fold vns.
+    rewrite (set_positional_loop (g_base g) vns Hv). reflexivity.
+  - rewrite np_get_state_eq by exact Hnd. f_equal.
+    apply (nth_ext _ _ 0 0); [rewrite map_length; symmetry; exact Hl|].
+    intros i Hi. rewrite map_length in Hi.
+    rewrite (nth_indep _ 0 (py_state (assign_all st vns) {| n_tumor := false; n_name := "" |})) by (rewrite map_length; exact Hi).
+    rewrite map_nth. apply Hdig. unfold nlnls. rewrite <- lnl_nodes_names, map_length. exact Hi.
+  - intros k Hk. apply assign_all_other. rewrite Hnames. exact Hk.
+Qed.
+
+(** a state outside the allowed ones is rejected (ValueError) at the first LNL that gets one *)
+Lemma np_set_state_rejects g st x1 v x2 : length x1 < nlnls g -> Forall (fun v => v < g_base g) x1 -> g_base g <= v ->
+  np_set_state g st (x1 ++ v :: x2) [] = inl SEValue.
+Proof.
+  intros Hl Hx Hv. unfold np_set_state. rewrite np_lnls_graph. fold (lnl_nodes g).
+  unfold nlnls in Hl. rewrite <- lnl_nodes_names, map_length in Hl.
+  assert (E : forall ns st, length x1 < length ns ->
+            py_for (fun '((new_lnl_state, lnl) : nat * node) (states : node_states) =>
+              match np_node_set_state (g_base g) states lnl new_lnl_state with
+              | inl e => inl e
+              | inr states => inr states
+              end) (combine (x1 ++ v :: x2) ns) st = inl SEValue).
+  { clear Hl st. induction Hx as [|a x1 Ha _ IH]; intros [|n ns] st Hlen; cbn [length] in Hlen; try lia.
+    - cbn [app combine py_for]. rewrite np_node_set_state_bad by exact Hv. reflexivity.
+    - cbn [app combine py_for]. rewrite np_node_set_state_ok by exact Ha. apply IH. lia. }
+  rewrite E by exact Hl. reflexivity.
+Qed.
+
+(** keyword form: one LNL by name (the names of the nodes are pairwise distinct) *)
+Lemma dict_get_nodes_dict g n : NoDup (map n_name (g_nodes g)) -> In n (g_nodes g) -> dict_get (n_name n) (nodes_dict g) = Some n.
+Proof.
+  intros Hnd Hin. apply dict_get_In.
+  - unfold nodes_dict. rewrite map_map. cbn [fst]. exact Hnd.
+  - unfold nodes_dict. apply in_map_iff. exists n. split; [reflexivity|exact Hin].
+Qed.
+Lemma np_set_state_keyword g st n v : NoDup (map n_name (g_nodes g)) -> In n (g_nodes g) -> v < g_base g ->
+  np_set_state g st [] [(n_name n, v)] = inr (if n_tumor n then st else dict_set (n_name n) v st).
+Proof.
+  intros Hnd Hin Hv. unfold np_set_state. cbn [combine py_for]. rewrite (dict_get_nodes_dict g n Hnd Hin).
+  destruct (n_tumor n); cbn [negb andb]; [reflexivity|]. rewrite np_node_set_state_ok by exact Hv. reflexivity.
+Qed.
+Lemma np_set_state_unknown g st k v : ~ In k (map n_name (g_nodes g)) -> np_set_state g st [] [(k, v)] = inl SEKey.
+Proof.
+  intros Hk. unfold np_set_state. cbn [combine py_for].
+  destruct (dict_get k (nodes_dict g)) as [n|] eqn:E; [|reflexivity].
+  exfalso. apply Hk. apply dict_get_Some_In in E. unfold nodes_dict in E. apply in_map_iff in E.
+  destruct E as [m [Hm Hin]]. inversion Hm; subst. apply in_map. exact Hin.
+Qed.
